@@ -62,6 +62,7 @@ type Cfg struct {
 	Unauthed     string   `json:"unauthed"` // notfound | redirect | unauthorized
 	Providers    []string `json:"providers"`
 	Preserve     []string `json:"preserve"`
+	OneTime      bool     `json:"onetime"` // the user type implements totp2fa.UserOneTime (TOTP replay protection)
 }
 
 func (c Cfg) has(m string) bool {
@@ -327,6 +328,7 @@ func newWorld(cfg Cfg, seed int64) (*World, error) {
 		mail: &mailOut{}, log: &logCap{}, rnd: &recReader{src: mrand.New(mrand.NewSource(seed))}}
 	crand.Reader = w.rnd
 	w.st = newStore(w.be, cfg.Username)
+	w.st.oneTime = cfg.OneTime
 	w.sms = &smsOut{be: w.be}
 	w.hash = &hasher{be: w.be, inner: authboss.NewBCryptHasher(bcrypt.MinCost), plain: map[string]string{}}
 
